@@ -428,4 +428,87 @@ theorem inv_submit {cs : List Chunk} {v : Variant} {c : Cfg} {i : Nat} {ops : Li
       obtain ⟨h20, _⟩ := m.lateItems hl'
       rw [hp] at h20; simp [rank] at h20
 
+
+/-! ## items that touch the file system -/
+
+
+/-- the names a chunk writer's facts are about -/
+def dataName : Name → Bool
+  | .md => false
+  | _ => true
+
+theorem WFacts_congr {v : Variant} {t t' : Dir} {i : Nat} {c : Chunk} {n : Nat} {b : Bool}
+    (hag : ∀ x, dataName x = true → t'.get x = t.get x) (h : WFacts v t i c n b) : WFacts v t' i c n b := by
+  obtain ⟨h1, h2, h3⟩ := h
+  refine ⟨?_, ?_, ?_⟩
+  · intro a b' c'; rw [hag _ rfl]; exact h1 a b' c'
+  · intro a b'; rw [hag _ rfl]; exact h2 a b'
+  · intro a b' c'; rw [hag _ rfl]; exact h3 a b' c'
+
+/-- the main-path facts only depend on the data entries of the temp directory -/
+theorem main_fs {cs : List Chunk} {v : Variant} {c : Cfg} (m : Main cs v c) (fs' : FS)
+    (H : ∀ t', fs'.temp = some t' → ∃ t, c.fs.temp = some t ∧ ∀ x, dataName x = true → t'.get x = t.get x) :
+    Main cs v { c with fs := fs' } := by
+  constructor
+  · exact m.chunksMd
+  · exact m.cover
+  · exact m.nodup
+  · exact m.substd
+  · intro w hw hf
+    obtain ⟨hj, n, h1, h2, h3, h4⟩ := m.wstd w hw hf
+    refine ⟨hj, n, h1, h2, h3, ?_⟩
+    intro t' ht'
+    obtain ⟨t, ht, hag⟩ := H t' ht'
+    exact WFacts_congr hag (h4 t ht)
+  · exact awaited_congr (c1 := c) rfl rfl m.awaited
+  · intro i hi
+    obtain ⟨hj, hr⟩ := m.reads i hi
+    refine ⟨hj, ?_⟩
+    intro t' ht'
+    obtain ⟨t, ht, hag⟩ := H t' ht'
+    rw [hag _ rfl]; exact hr t ht
+  · intro hn t' ht' j hj
+    obtain ⟨t, ht, hag⟩ := H t' ht'
+    exact m.names hn t ht j (by rw [← hag _ rfl]; exact hj)
+  · exact m.mdOpen
+  · exact m.sj
+  · exact m.noApp
+  · exact m.noRead
+  · intro hv t' ht' j
+    obtain ⟨t, ht, hag⟩ := H t' ht'
+    rw [hag _ rfl]; exact m.nocmeta hv t ht j
+  · exact m.unl
+  · exact m.collectOnce
+  · exact m.lateItems
+
+/-- effect of the three operations of a metadata flush -/
+theorem apply_mdOp {fs fs' : FS} {o : Op}
+    (ho : o = .openTrunc .temp .md ∨ (∃ c, o = .write .temp .md c) ∨ o = .close .temp .md)
+    (h : apply fs o = .ok fs') :
+    fs'.final = fs.final ∧ ∃ t t', fs.temp = some t ∧ fs'.temp = some t' ∧ (∀ x, dataName x = true → t'.get x = t.get x) ∧
+      (∀ c, o = .write .temp .md c → t'.get .md = some c) ∧ (o = .close .temp .md → t' = t) := by
+  rcases ho with rfl | ⟨c, rfl⟩ | rfl
+  · simp only [apply, FS.dir] at h
+    split at h <;> simp at h
+    rename_i t ht
+    subst h
+    refine ⟨rfl, t, t.set .md .empty, ht, rfl, ?_, by simp, by simp⟩
+    intro x hx; rw [Dir.get_set]; cases x <;> simp_all [dataName]
+  · simp only [apply, FS.dir] at h
+    split at h
+    · rename_i t ht
+      split at h <;> simp at h
+      subst h
+      refine ⟨rfl, t, t.set .md c, ht, rfl, ?_, ?_, by simp⟩
+      · intro x hx; rw [Dir.get_set]; cases x <;> simp_all [dataName]
+      · intro c' hc'; injection hc' with _ _ hc'; subst hc'; rw [Dir.get_set]; simp
+    · simp at h
+  · simp only [apply, FS.dir] at h
+    cases ht : fs.temp with
+    | none => simp [ht] at h
+    | some t =>
+      simp [ht] at h
+      subst h
+      refine ⟨rfl, t, t, ?_, ?_, fun _ _ => rfl, by simp, fun _ => rfl⟩ <;> simp_all
+
 end Strax.FS
